@@ -56,6 +56,8 @@ static int budget_armed;
 typedef struct {
 	const uint8_t *p; size_t len, pos;
 	unsigned long reads, skips, bytes; uint64_t budget; int shortreads;
+	size_t err_at;          /* 0 = never; otherwise the read callback reports an error (-1) once the position has reached err_at-1 */
+	unsigned long errors;
 } MemSrc;
 
 static void charge(MemSrc *s)
@@ -77,6 +79,8 @@ static int cb_read(void *h, void *buf, size_t n)
 {
 	MemSrc *s = h; size_t k = s->len - s->pos;
 	++s->reads; charge(s);
+	if (s->err_at && s->pos + 1 >= s->err_at) { ++s->errors; return -1; }
+	if (s->err_at && s->pos + n >= s->err_at) n = s->err_at - 1 - s->pos;     /* deliver up to the faulty spot, then fail */
 	if (k > n) k = n;
 	if (s->shortreads && k > 7) k = 7;
 	memcpy(buf, s->p + s->pos, k); s->pos += k; s->bytes += k;
@@ -244,6 +248,8 @@ int main(int argc, char **argv)
 		fds_before = count_fds();
 		memset(&src, 0, sizeof src);
 		src.p = arc; src.len = alen; src.budget = budget; src.shortreads = (flags & 4) != 0;
+		src.err_at = flags >> 8;          /* bits 8..31 of the flags word: offset+1 at which the read callback starts failing */
+		flags &= 0xff;
 
 		if (kind == 0 || kind == 4) {
 			snprintf(arcpath, sizeof arcpath, "%s/arc_%u.bin", workdir, id);
